@@ -113,7 +113,10 @@ func runC11(c *gen.Ctx) error {
 				add("write-err", mk(func(s *cc.VerifC11Spec) { s.Write = "prefix" }))
 				add("write-err", mk(func(s *cc.VerifC11Spec) { s.Write = "body" }))
 				add("close-err", mk(func(s *cc.VerifC11Spec) { s.Close = "err" }))
-				for _, r := range []string{"garbage", "oversize", "zero", "ok", "okcert"} {
+				for _, r := range []string{"garbage", "oversize", "overshort", "limit", "zero", "ok", "okcert"} {
+					if (r == "oversize" || r == "limit") && n > 2 && !c.Thorough() {
+						continue
+					}
 					add("resp-"+r, mk(func(s *cc.VerifC11Spec) { s.Resp = r }))
 				}
 				if n <= 2 || c.Thorough() {
@@ -176,9 +179,9 @@ func runC11(c *gen.Ctx) error {
 	}
 
 	// F. reference-server stderr scripts (fault-free batch: the runner waits for the reader)
-	nStderr := 300
+	nStderr := 1000
 	if c.Thorough() {
-		nStderr = 3000
+		nStderr = 5000
 	}
 	for i := 0; i < nStderr; i++ {
 		n := c.R.Range(1, maxN)
@@ -214,9 +217,9 @@ func runC11(c *gen.Ctx) error {
 	}
 
 	// G. random combinations of everything
-	nRandom := 500
+	nRandom := 2000
 	if c.Thorough() {
-		nRandom = 6000
+		nRandom = 10000
 	}
 	for i := 0; i < nRandom; i++ {
 		n := c.R.Range(1, maxN)
@@ -241,7 +244,7 @@ func runC11(c *gen.Ctx) error {
 		case r == 9:
 			s.Resp = "garbage"
 		case r == 10:
-			s.Resp = "oversize"
+			s.Resp = gen.Pick(c.R, []string{"overshort", "overshort", "overshort", "oversize", "limit"})
 		default:
 			s.Resp, s.Cut = "cut", c.R.Range(0, respLen)
 		}
